@@ -102,8 +102,14 @@ def str_grow(n):
     for k in sorted({0, nb // 2, nb // 3, max(0, nb - 1), nb}):
         st.append(pr(A.Bin("==", A.Bin("+", A.RangeIndex(V("s"), None, I(k)), A.RangeIndex(V("s"), I(k), None)), V("s"))))
     if nb > 0:
-        st += [pr(A.Bin("==", A.Index(V("s"), I(0)), S("a"))),
-               pr(A.Call(A.Prop(A.Paren(A.RangeIndex(V("s"), I(nb // 2), None)), "len", True), []))]
+        st += [pr(A.Bin("==", A.Index(V("s"), I(0)), S("a")))]
+        for k in (nb // 2, nb // 2 + 1, nb // 2 + 2):
+            try:
+                text.encode("utf-8")[k:].decode("utf-8")
+            except UnicodeDecodeError:
+                continue          # `->len` wants a well-formed string: use the first cut that does not split a character
+            st.append(pr(A.Call(A.Prop(A.Paren(A.RangeIndex(V("s"), I(k), None)), "len", True), [])))
+            break
     st += [A.Declare(V("t"), S(""))] + [A.For(A.lst(V("_"), V("ch")), V("s"), [A.OpAssign("+", V("t"), V("ch"))]), pr(A.Bin("==", V("t"), V("s")))]
     st += [pr(A.IStr(["<", V("s"), "|", V("s"), ">"]))]
     return st
@@ -207,7 +213,7 @@ def nest_list(d):
         for _ in range(d):
             e = A.lst(e)
         return e
-    st = [A.Declare(V("x"), nested(I(1))), pr(V("x")), pr(A.Bin("==", V("x"), nested(I(1)))), pr(A.Bin("==", V("x"), nested(I(2)))), pr(A.Bin("===", V("x"), V("x")))]
+    st = [A.Declare(V("x"), nested(I(1))), pr(V("x")), pr(A.Bin("==", V("x"), nested(I(1)))), pr(A.Bin("==", V("x"), nested(I(2))))] + ([pr(A.Bin("===", V("x"), V("x")))] if d else [])
     e = V("x")
     for _ in range(d):
         e = A.Index(e, I(0))
@@ -357,7 +363,7 @@ def interp_len(n):
 
 def name_coincidence(_n):
     """names that coincide with other names in scope-legal ways"""
-    return [A.FuncStmt("count", [V("xs")], False, [A.Declare(V("count"), I(0)), A.For(V("_"), V("xs"), [A.OpAssign("+", V("count"), I(1))]), A.Return(V("count"))]),
+    return [A.Declare(V("say"), V("print")), A.FuncStmt("count", [V("xs")], False, [A.Declare(V("count"), I(0)), A.For(V("_"), V("xs"), [A.OpAssign("+", V("count"), I(1))]), A.Return(V("count"))]),
             pr(A.call("count", A.lst(I(1), I(2)))), pr(A.call("count", A.lst())),
             A.FuncStmt("same", [V("same")], False, [A.Return(A.Bin("+", V("same"), I(1)))]), pr(A.call("same", I(1))), pr(A.call("same", I(2))),
             A.FuncStmt("outer", [], False, [A.FuncStmt("outer", [], False, [A.Return(S("inner outer"))]), A.Return(A.call("outer"))]), pr(A.call("outer")),
@@ -365,7 +371,18 @@ def name_coincidence(_n):
             A.Block([A.Declare(V("print"), S("shadow")), A.Declare(V("len"), I(1)), A.Declare(V("type"), I(2)), A.Declare(V("this"), I(3)), pr_via("say", V("print")), pr_via("say", V("this"))]),
             A.FuncStmt("rec", [V("n")], False, [A.If([(A.Bin("==", V("n"), I(0)), [A.Declare(V("rec"), S("local")), A.Return(V("rec"))])], None), A.Return(A.call("rec", A.Bin("-", V("n"), I(1))))]), pr(A.call("rec", I(3))),
             A.For(V("i"), A.lst(I(1)), [A.For(V("i"), A.lst(I(2)), [pr(V("i"))]), pr(V("i"))]),
-            A.Declare(V("k"), S("k")), pr(A.ObjectE([A.Single(V("k"), False, False), A.Pair(V("k"), V("k"))]))]
+            A.Declare(V("k"), S("k")), pr(A.ObjectE([A.Single(V("k"), False, False), A.Pair(V("k"), V("k"))])),
+            # a property that happens to be called `_`, `this`, or like a type function is an ordinary property
+            A.Declare(V("u"), A.obj(("_", I(1)), ("this", I(2)))), A.Assign(A.Prop(V("u"), "_", False), I(10)), A.OpAssign("+", A.Prop(V("u"), "_", False), I(5)), pr(A.Prop(V("u"), "_", False)),
+            pr(A.Index(V("u"), S("_"))), A.Assign(A.Prop(V("u"), "this", False), I(20)), A.Assign(A.Prop(V("u"), "len", False), I(30)), A.Assign(A.Prop(V("u"), "type", False), S("mine")),
+            pr(V("u")), pr(A.Prop(V("u"), "type", False)), pr(A.Call(A.Prop(V("u"), "type", True), [])),
+            A.Declare(A.ObjectE([A.Pair(S("this"), V("th")), A.Pair(S("type"), V("ty")), A.Single(V("more"), False, True)]), V("u")), pr(A.lst(V("th"), V("ty"))), pr(V("more"))]
+
+
+def typefn_named_missing(_n, name, how):
+    """`.name` reads a property, never a type function: a missing `type` / `len` property is missing"""
+    host = {"object": lambda: A.obj(("a", I(1))), "empty": lambda: A.obj(), "nested": lambda: A.Prop(A.obj(("inner", A.obj(("a", I(1))))), "inner", False)}[how]
+    return [A.Declare(V("o"), host()), pr(S("before")), pr(A.Prop(V("o"), name, False)), pr(S("WRONG"))]
 
 
 def pr_via(f, e):
@@ -751,6 +768,7 @@ ENTRIES = {
     "slot_parse_errors": ("C15 C17 C02 C18 C03", slot_parse_errors, [(t, w) for t in SLOT_TEXTS for w in ("top", "fn", "second", "never")], 0, {"err": None}),
     "istr_keys": ("C12 C15 C13 C16", istr_keys, [()], 0, {"err": True}),
     "self_targets": ("C13 C02 C05 C12 C11", self_targets, [()], 0, {}),
+    "typefn_named_missing": ("C12 C14 C16 C17", typefn_named_missing, [(nm, how) for nm in ("type", "len", "print", "this", "_") for how in ("object", "empty", "nested")], 0, {"err": True}),
     "name_coincidence": ("C20 C04 C12 C14", name_coincidence, [()], 0, {}),
     "big_text_interp": ("C15 C03", big_text, [(c, ph, "interp") for c in ("é", "😀", "a") for ph in (0, 1)], -70000, {"err": True}),
     "chain_error": ("C08 C16 C18 C06 C17", chain_error, [("type_mid",), ("type_last",), ("type_first",), ("overflow_first",), ("overflow_last",)], 129, {"err": True}),
@@ -810,7 +828,7 @@ def descs_for(prop, tier):
             sizes += [rng.randrange(0, mx + 1) for _ in range(4 if tier == "quick" else 24)]
         for n in sorted(set(sizes)):
             for v in variants:
-                if name == "params_arity" and n + v[0] < 0:
+                if (name == "params_arity" and n + v[0] < 0) or (name == "chain_error" and n == 1 and v[0] == "overflow_first"):
                     continue
                 out.append(("scale", name, n, v, prop))
     return out
@@ -825,8 +843,8 @@ def build_case(desc):
     prog = fn(n, *v)
     case = {"prog": prog, "tags": ["scale:%s" % name, "scale-n:%d" % n],
             "model_kw": dict({"fuel": 3000000, "max_size": 1 << 20, "max_out": 1 << 22}, **opt.get("model_kw", {})), "meta": {"scale": name, "n": n, "variant": v}}
-    if opt.get("err") is True:
-        case["expect_error"] = True
+    if opt.get("err", False) is not None:
+        case["expect_error"] = bool(opt.get("err", False))       # the catalogue's own expectation guards the generator: a disagreement with the model is counted as a discard
     if prop in DIAG_PROPS:
         case.update({"check_pos": True, "check_atoms": True, "check_diag": True})
     if opt.get("bigtext"):
